@@ -85,6 +85,20 @@ CHECKS = {
          "KeyboardInterrupt/SystemExit are outside the statement.",
     technique="TLA+ spec + TLC; TLC-generated handshake scenarios replayed into the real daemon; TLC trace validation (monitor)",
     ref="6/C08"),
+ "C13": dict(
+    category="model_checking",
+    text="Daemon.tla's Teardown (hook once iff the connection had been accepted, tracked resources closed, slot released; CleanOnce / "
+         "ResourcesOnce / OpenUntouched / Accounting) model-checked; Gen_Cleanup.tla enumerates ending (15 kinds: orderly, reset, cut in "
+         "prefix/header/body, reset mid-message, garbage, bad version, wrong message type, oversized, security error, timeouts, unknown "
+         "serializer, inconsistent annotation chunk) x tracked/untracked resources x bystander x session instance x failing hook; raw clients "
+         "drive a real daemon of both server types (COMMTIMEOUT for the timeout endings; every byte offset as cut point in the thorough "
+         "tier); hook calls, resource close() calls, socket state, session-instance liveness and pool/selector accounting are recorded and "
+         "validated by TLC against Trace_Daemon.tla (clauses C13.*).",
+    note="Trusted: resources are harness objects counting close(); weak references for session instances; in-memory transport (a reset socket "
+         "raises ENOTCONN on shutdown like a real one); TLC. Endings after which the daemon may legitimately keep the connection are judged by "
+         "whether it closed it.",
+    technique="TLA+ spec + TLC; TLC-generated ending scenarios replayed into the real daemon; TLC trace validation (monitor)",
+    ref="6/C13"),
 }
 NOT_YET = {}
 ALL = ["C%02d" % i for i in range(1, 21)]
